@@ -15,8 +15,9 @@ BUILDS = ["rel"]
 BUDGET_S = {"quick": 150, "thorough": 1800}
 EXHAUSTIVE = {"quick": "registered suffix x file-name shape x -E mapping kind", "thorough": "registered suffix x file-name shape x -E mapping kind"}
 RULE = ("Every registered suffix x name shape {x.ext, x.y.ext, dir.with.dots/x.ext, directory named like another extension, "
-        ".x.ext via a diff, upper/lower-case variant, x.ext.bak, GNUmakefile/no extension} x -E kinds {unregistered->registered, "
-        "registered->registered, key with spaces, onto unsupported}. For each name two contents are listed: a generated file "
+        ".x.ext via a diff, a file renamed in the diff from a name of another / of no grammar, upper/lower-case variant, x.ext.bak, "
+        "GNUmakefile/no extension} x -E kinds {unregistered->registered, registered->registered, key with spaces, key = a whole file "
+        "name (Dockerfile, BUILD, go.mod, Makefile), onto unsupported}. For each name two contents are listed: a generated file "
         "valid in the expected grammar (construction truth) and a fixed multi-family fingerprint (hash, //, /* */, <!-- -->, "
         "--, Markdown link comments), compared with the same bytes under the grammar's reference name; names that map to no "
         "grammar hold unbalanced tags and must yield nothing, silently. Thorough adds random names and random -E tables. "
@@ -94,6 +95,11 @@ def _list(ctx, name, data, eargs, via_diff=False):
             nlines = data.count(b"\n")
             body = "".join("+" + l + "\n" for l in data.decode("utf-8", "replace").split("\n")[:nlines])
             diff = "diff --git a/%s b/%s\nnew file mode 100644\n--- /dev/null\n+++ b/%s\n@@ -0,0 +1,%d @@\n%s" % (name, name, name, nlines, body)
+            if isinstance(via_diff, str):
+                # the file was renamed (and rewritten) in the same change: the diff's source side carries the old name, which
+                # maps to another grammar or to none; only the new name counts
+                diff = ("diff --git a/%s b/%s\nsimilarity index 51%%\nrename from %s\nrename to %s\n--- a/%s\n+++ b/%s\n@@ -1,1 +1,%d @@\n-old first line\n%s"
+                        % (via_diff, name, via_diff, name, via_diff, name, nlines, body))
             return run.run(ctx.bin("rel"), ["list"] + eargs, root, stdin=diff.encode("utf-8"), env={})
         return run.run(ctx.bin("rel"), ["list"] + eargs, root, stdin=None, env=dict(TERM))
     finally:
@@ -192,6 +198,10 @@ def run_job(job, ctx):
     if k == "shapes":
         for shape, name in shapes_for(job["suffix"]):
             compare(ctx, name, {}, shape, job, out, hidden=shape.endswith("-via-diff"))
+        base = shapes_for(job["suffix"])[0][1]
+        other = "old.md" if langs.GRAMMAR_OF_SUFFIX[job["suffix"]] != "markdown" else "old.py"
+        compare(ctx, "moved/" + base, {}, "renamed-via-diff/old-name-unknown", job, out, hidden="notes/old_name.txt")
+        compare(ctx, "moved/" + base, {}, "renamed-via-diff/old-name-other-grammar", job, out, hidden=other)
     elif k == "emap":
         s = job["suffix"]
         others = [x for x in langs.ALL_SUFFIXES if langs.GRAMMAR_OF_SUFFIX[x] != langs.GRAMMAR_OF_SUFFIX[s] and "." not in x]
@@ -204,6 +214,11 @@ def run_job(job, ctx):
         compare(ctx, "x.%s.bak" % other, {"bak": s}, "E-outer-candidate", job, out)
         compare(ctx, "x.q.w", {"q.w": s}, "E-compound-key", job, out)
         compare(ctx, "x.zzz", {"yyy": s}, "E-unrelated", job, out)
+        # keys that are whole file names (no dot to split at): consulted by the whole-name fallback
+        compare(ctx, "Dockerfile", {"Dockerfile": s}, "E-whole-name", job, out)
+        compare(ctx, "pkg.v2/BUILD", {"BUILD": s}, "E-whole-name", job, out)
+        compare(ctx, "sub/go.mod", {"go.mod": s}, "E-whole-name-registered", job, out)
+        compare(ctx, "Makefile", {"Makefile": s}, "E-whole-name-registered", job, out)
         # mapping onto an unsupported grammar must be rejected up front
         for bad_target, pre, post in (("zzz", [], []), (s.upper() if s.upper() != s else s + "x", [], []), ("", [], []),
                                       ("zzz", ["-E", "good1=%s" % s], []), ("nope", ["-E", "g1=%s" % s, "-E", "g2=py"], ["-E", "g3=rs"]),
